@@ -89,7 +89,7 @@ class C02(Sim):
         if rng.random() < (0.004 if tier == "quick" else 0.01):
             yield self._huge_case(rng)
             return
-        sp = S.gen_spec(rng, activations=S.GENERAL, fn_reads_output=False, norm_functions=True, user_terms=["DomainRamp", "InputGain"])
+        sp = S.gen_spec(rng, activations=S.GENERAL, fn_reads_output=False, norm_functions=True, user_terms=["DomainRamp", "InputGain"], many_inputs=0.04)
         r0 = rng.random()
         if r0 < 0.06:
             S.make_hybrid_output(rng, sp)
